@@ -359,6 +359,20 @@ def validate(seed=0):
     def close(a, b):
         return np.allclose(np.asarray(a, dtype=float), np.asarray(b, dtype=float), rtol=1e-9, atol=1e-12)
 
+    # path exploration: k independent forks must yield all 2**k paths (and nested, data-dependent forks all leaves)
+    def _forks():
+        vs = [symx.real(f"__f{i}") for i in range(4)]
+        r = 0
+        for i, v in enumerate(vs):
+            if v > 0:
+                r += 2 ** i
+                if i == 1 and vs[0] > 1:
+                    r += 100
+        return r
+    leaves = sorted(r for _, r in symx.explore(_forks))
+    assert leaves == sorted(list(range(16)) + [100 + k for k in range(16) if k & 1 and k & 2]), leaves
+    symx.Ctx.cur = symx.Ctx()
+    n_checked += 1
     # unary
     for name in ['exp', 'sin', 'cos', 'tan', 'tanh', 'sinh', 'cosh', 'arctan', 'sqrt', 'log', 'abs', 'sign']:
         x = rng.uniform(0.1, 2.0, size=4) * (1 if name in ('sqrt', 'log') else rng.choice([-1, 1], size=4))
